@@ -60,8 +60,8 @@ func (r *vwRun) containerUnits(tier string, squares []*vwSquare, bases *[]vwEnc,
 					default:
 						pick = first
 					}
-					if form == "json" && sq.w > 1 && tier != "thorough" {
-						allPos = false // JSON text of squares wider than 1: positions inside base64 share payloads are left out
+					if form == "json" && ((sq.w > 1 && tier != "thorough") || sq.w > 2) {
+						allPos = false // JSON text of wider squares: positions inside base64 share payloads are left out
 					}
 					if pick {
 						mu.Lock()
